@@ -18,6 +18,8 @@ RULE = (
     "distinct = distinct canonical JSON of the case"
 )
 ASSUMPTIONS = [
+    "series values get a deterministic wiggle (never constant); finiteness is not required of "
+    "pipelines containing Box-Cox (inverse undefined outside the transform's image)",
     "forecasters that cannot run on this stack are excluded (DESIGN 0.2); datetime indexes "
     "are not generated",
     "absolute horizons are combined with updates only by passing fresh absolute labels to "
@@ -83,6 +85,16 @@ def run_history(spec, y_full, n0, steps, case, shift=0):
     return obs, discs
 
 
+def _has_boxcox(spec):
+    if spec["kind"] == "pipeline":
+        return any(t["kind"] == "boxcox" for t in spec["transformers"]) or _has_boxcox(spec["forecaster"])
+    if "members" in spec:
+        return any(_has_boxcox(m) for m in spec["members"])
+    if "base" in spec:
+        return _has_boxcox(spec["base"])
+    return False
+
+
 def check_pred(p, cutoff, steps, spec, when):
     name = pools.describe(spec)
     if isinstance(p, Raised):
@@ -94,7 +106,9 @@ def check_pred(p, cutoff, steps, spec, when):
     got = sut(lambda: _labels(p.index))
     if isinstance(got, Raised) or got != want:
         out.append(D("forecast_index", "%s %s: index %s expected %s" % (name, when, list(p.index), want)))
-    if len(p) == len(steps) and not np.all(np.isfinite(p.to_numpy(dtype=float))):
+    # Box-Cox pipelines: the inverse transform is undefined outside the image of the
+    # transform, so an extrapolating forecaster may legitimately yield nan (scipy behaviour)
+    if len(p) == len(steps) and not _has_boxcox(spec) and not np.all(np.isfinite(p.to_numpy(dtype=float))):
         out.append(D("forecast_not_finite", "%s %s fh=%s: %s" % (name, when, steps, p.tolist())))
     return out
 
@@ -104,7 +118,7 @@ def oracle(case, ctx):
     steps = case["fh"]
     n0 = case["n"]
     total = n0 + sum(case["updates"])
-    vals = case["values"][:total]
+    vals = [v + ((i * 37) % 11) / 7.0 for i, v in enumerate(case["values"][:total])]
     y = gen.build_series(vals, case["start"], case["index_kind"])
     ctx.label(pools.describe(spec).split("(")[0])
     ctx.label("abs" if case["fh_mode"] == "abs" else "rel")
